@@ -44,6 +44,15 @@ impl<T: Copy + Default> Vec<T> {
         self.len = w;
     }
     pub fn into_boxed_slice(self) -> Self { self }
+    /// insertion sort (std's slice sort is a recursive driftsort that CBMC cannot unwind)
+    pub fn sort(&mut self) where T: Ord {
+        let mut i = 1;
+        while i < self.len { let mut j = i; while j > 0 && self.buf[j - 1] > self.buf[j] { let t = self.buf[j]; self.buf[j] = self.buf[j - 1]; self.buf[j - 1] = t; j -= 1; } i += 1; }
+    }
+    pub fn sort_by_key<K: Ord, F: FnMut(&T) -> K>(&mut self, mut f: F) {
+        let mut i = 1;
+        while i < self.len { let mut j = i; while j > 0 && f(&self.buf[j - 1]) > f(&self.buf[j]) { let t = self.buf[j]; self.buf[j] = self.buf[j - 1]; self.buf[j - 1] = t; j -= 1; } i += 1; }
+    }
 }
 pub trait VecDrainRange { fn end_exclusive(&self) -> usize; }
 impl VecDrainRange for std::ops::RangeTo<usize> { fn end_exclusive(&self) -> usize { self.end } }
